@@ -11,6 +11,7 @@ import (
 	"strconv"
 	"strings"
 	"sync"
+	"sync/atomic"
 	"testing"
 	"testing/synctest"
 	"time"
@@ -642,6 +643,12 @@ func TestC13(t *testing.T) {
 			c13InDispatch(r, fw.Key("T", i), r.Rand("T", i))
 		}
 	}
+	nc := r.N(48, 600)
+	for i := 0; i < nc; i++ {
+		if r.Mine("churn", i) {
+			c13Churn(r, fw.Key("churn", i), r.Rand("churn", i))
+		}
+	}
 	n := r.N(6000, 100000)
 	for i := 0; i < n; i++ {
 		if r.Mine("seq", i) {
@@ -666,7 +673,11 @@ func TestC13(t *testing.T) {
 //     connection's registry stays usable afterwards: removers and Subscribe calls return, a later
 //     Connect dispatches to exactly the callbacks subscribed then.
 func c13InDispatch(r *fw.Run, key string, rng *rand.Rand) {
-	mode := []string{"removers", "removers", "panic"}[rng.IntN(3)]
+	mode := []string{"removers", "removers", "panic", "nilcb"}[rng.IntN(4)]
+	if mode == "nilcb" {
+		c13NilCallback(r, key, rng)
+		return
+	}
 	triggerTyped := rng.IntN(2) == 0 // trigger subscribed to the type and target to all, or the other way round
 	nrm := 2 + rng.IntN(3)
 	r.Begin(key, fmt.Sprintf("in-dispatch mode=%s trigger_typed=%v removers=%d", mode, triggerTyped, nrm))
@@ -734,7 +745,9 @@ func c13InDispatch(r *fw.Run, key string, rng *rand.Rand) {
 		conn.SubscribeEvent("t1", control)
 	}
 	panicked := false
-	func() {
+	connDone := make(chan struct{})
+	go func() {
+		defer close(connDone)
 		defer func() {
 			if recover() != nil {
 				panicked = true
@@ -742,6 +755,35 @@ func c13InDispatch(r *fw.Run, key string, rng *rand.Rand) {
 		}()
 		conn.Connect()
 	}()
+	// Connect must come back: a stall (nothing stamped for a million scheduler yields and 2 s) means
+	// dispatch and the removers wait for each other
+	{
+		last, start, yields := int64(-1), time.Now(), 0
+		for stalled := false; !stalled; {
+			select {
+			case <-connDone:
+				stalled = true // done
+				continue
+			default:
+			}
+			runtime.Gosched()
+			yields++
+			if yields%4096 == 0 {
+				if now := clock.Tick(); now != last+1 {
+					last, start, yields = now, time.Now(), 0
+				} else {
+					last = now
+					if yields > 1000000 && time.Since(start) > 2*time.Second {
+						r.Count("in_dispatch_scenarios", 1)
+						r.Eval(fw.Hash("T", mode, fmt.Sprint(triggerTyped, nrm)), true)
+						r.Violation(key, []string{"dispatch_deadlock", "concurrent_calls_of_one_remover"}, map[string]any{"mode": mode, "trigger_typed": triggerTyped, "remover_goroutines": nrm},
+							"C13: Connect does not return: dispatch and %d goroutines calling a remover wait for each other (nothing moved for a million scheduler yields and 2 s)", nrm)
+						return
+					}
+				}
+			}
+		}
+	}
 	wg.Wait()
 	r.Count("in_dispatch_scenarios", 1)
 	r.Eval(fw.Hash("T", mode, fmt.Sprint(triggerTyped, nrm)), true)
@@ -805,5 +847,148 @@ func c13InDispatch(r *fw.Run, key string, rng *rand.Rand) {
 	if len(late) != 1 || len(controlInv) != before+1 || len(targetInv) != beforeTarget {
 		r.Violation(key, []string{"registry_wrong_after_callback_panic"}, map[string]any{"connect_panicked": panicked, "late_subscriber_calls": len(late), "control_calls": len(controlInv) - before, "removed_callback_calls": len(targetInv) - beforeTarget},
 			"C13: on the Connect after a callback panic, the new subscriber saw %d events (want 1), the one that stayed %d (want 1), the removed one %d (want 0)", len(late), len(controlInv)-before, len(targetInv)-beforeTarget)
+	}
+}
+
+// c13NilCallback: a nil callback is registered for a type and removed again before any event of
+// that type arrives (calling it would crash, so that is the only legal life it can have); the
+// other subscriptions of that type are none of its remover's business.
+func c13NilCallback(r *fw.Run, key string, rng *rand.Rand) {
+	viaAll := rng.IntN(3) == 0
+	nAfter := 1 + rng.IntN(3)
+	r.Begin(key, fmt.Sprintf("nil callback, via_all=%v, %d real subscriptions after it", viaAll, nAfter))
+	rt := &scriptedRT{bodies: func(int, *http.Request) (io.Reader, error) {
+		return strings.NewReader("event: t1\ndata: 0\n\ndata: 1\n\n"), nil
+	}}
+	cl := &sse.Client{HTTPClient: &http.Client{Transport: rt}, Backoff: sse.Backoff{MaxRetries: -1}}
+	req, _ := http.NewRequestWithContext(context.Background(), http.MethodGet, "http://verif.invalid/", http.NoBody)
+	conn := cl.NewConnection(req)
+	got := make([]int, nAfter)
+	var before int
+	conn.SubscribeEvent("t1", func(sse.Event) { before++ })
+	var rmNil sse.EventCallbackRemover
+	if viaAll {
+		rmNil = conn.SubscribeToAll(nil)
+	} else {
+		rmNil = conn.SubscribeEvent("t1", nil)
+	}
+	for k := 0; k < nAfter; k++ {
+		if viaAll {
+			conn.SubscribeToAll(func(sse.Event) { got[k]++ })
+		} else {
+			conn.SubscribeEvent("t1", func(sse.Event) { got[k]++ })
+		}
+	}
+	rmNil()
+	rmNil()
+	panicked := ""
+	func() {
+		defer func() {
+			if p := recover(); p != nil {
+				panicked = fmt.Sprint(p)
+			}
+		}()
+		conn.Connect()
+	}()
+	r.Count("in_dispatch_scenarios", 1)
+	r.Eval(fw.Hash("T-nil", fmt.Sprint(viaAll, nAfter)), true)
+	want := 1
+	if viaAll {
+		want = 2
+	}
+	bad := panicked != "" || before != 1
+	for _, g := range got {
+		if g != want {
+			bad = true
+		}
+	}
+	if bad {
+		r.Violation(key, []string{"remover_affects_other_subscription", "nil_callback"}, map[string]any{"via_all": viaAll, "calls_of_later_subscriptions": got, "want_each": want, "calls_of_earlier_subscription": before, "panic": panicked},
+			"C13: a nil callback was subscribed and unsubscribed before any event: the subscriptions made after it saw %v events (want %d each), the one before it %d (want 1), panic=%q", got, want, before, panicked)
+	}
+}
+
+// c13Churn: subscribe/unsubscribe from two goroutines as fast as they can while a connection
+// dispatches tens of thousands of events (real goroutines): progress must never stop.
+func c13Churn(r *fw.Run, key string, rng *rand.Rand) {
+	const nEvents = 20000
+	defer runtime.GOMAXPROCS(runtime.GOMAXPROCS(8)) // needs goroutines that really run at the same time
+	r.Begin(key, "subscribe/unsubscribe churn during 20000 dispatches")
+	var sb strings.Builder
+	for i := 0; i < nEvents; i++ {
+		if i%2 == 0 {
+			sb.WriteString("event: t1\n")
+		}
+		sb.WriteString("data: x\n\n")
+	}
+	rt := &scriptedRT{bodies: func(int, *http.Request) (io.Reader, error) { return strings.NewReader(sb.String()), nil }}
+	cl := &sse.Client{HTTPClient: &http.Client{Transport: rt}, Backoff: sse.Backoff{MaxRetries: -1}}
+	req, _ := http.NewRequestWithContext(context.Background(), http.MethodGet, "http://verif.invalid/", http.NoBody)
+	conn := cl.NewConnection(req)
+	var seen atomic.Int64
+	conn.SubscribeToAll(func(sse.Event) { seen.Add(1) })
+	stop := make(chan struct{})
+	var wg sync.WaitGroup
+	var cycles atomic.Int64
+	for w := 0; w < 4; w++ {
+		wg.Add(1)
+		go func() {
+			defer wg.Done()
+			for {
+				select {
+				case <-stop:
+					return
+				default:
+				}
+				var rm sse.EventCallbackRemover
+				if w%2 == 0 {
+					rm = conn.SubscribeEvent("t1", func(sse.Event) {})
+				} else {
+					rm = conn.SubscribeToAll(func(sse.Event) {})
+				}
+				rm()
+				cycles.Add(1)
+			}
+		}()
+	}
+	done := make(chan struct{})
+	go func() { defer close(done); conn.Connect() }()
+	// progress watchdog in scheduler yields and real time: a stall is a violation only if nothing at
+	// all moved for a million yields and two seconds
+	last, lastCycles := int64(-1), int64(-1)
+	start := time.Now()
+	yields := 0
+	stalled := false
+loop:
+	for {
+		select {
+		case <-done:
+			break loop
+		default:
+		}
+		runtime.Gosched()
+		yields++
+		if yields%4096 == 0 {
+			s, c := seen.Load(), cycles.Load()
+			if s != last || c != lastCycles {
+				last, lastCycles, start, yields = s, c, time.Now(), 0
+			} else if yields > 1000000 && time.Since(start) > 2*time.Second {
+				stalled = true
+				break loop
+			}
+		}
+	}
+	close(stop)
+	r.Count("churn_rounds", 1)
+	r.Count("churn_cycles", cycles.Load())
+	r.Eval(fw.Hash("churn", key), true)
+	if stalled {
+		r.Violation(key, []string{"dispatch_deadlock_under_churn"}, map[string]any{"events_dispatched": seen.Load(), "subscribe_cycles": cycles.Load()},
+			"C13: with two goroutines subscribing and unsubscribing, dispatch stopped after %d of %d events and the subscribing goroutines after %d cycles (nothing moved for a million scheduler yields and 2 s)", seen.Load(), nEvents, cycles.Load())
+		return // the goroutines are stuck: they are left behind
+	}
+	wg.Wait()
+	if seen.Load() != nEvents {
+		r.Violation(key, []string{"callback_missed_event"}, map[string]any{"seen": seen.Load()}, "C13: the long-lived subscribe-to-all callback saw %d of %d events under churn", seen.Load(), nEvents)
 	}
 }
